@@ -3,6 +3,7 @@
 
 usage: seeded.py add <dir with patch.diff demo.rs meta.json> <id>     (confirm + run all checks + store)
        seeded.py run [<id> ...]                                        (re-run the checks against stored ones)
+       seeded.py reconfirm <id> [<rebased patch>|-] [note]             (confirm a stored one again on the current tree)
 Confirmation (in a scratch copy of /repo outside /repo and /verif, removed afterwards):
   clean tree: tests/demo.rs passes; patched tree: builds, the existing lib+doc suite passes, demo fails.
 """
@@ -24,7 +25,13 @@ def scratch():
     tmp = tempfile.mkdtemp(prefix='seeded-')
     dst = os.path.join(tmp, 'repo')
     subprocess.check_call(['rsync', '-a', '--exclude', 'target', '--exclude', '.git', '--exclude', 'MUTANT', '--exclude', 'tests/demo.rs', REPO + '/', dst + '/'])
+    touch(dst)
     return tmp, dst
+
+
+def touch(dst):
+    """fresh mtimes: the shared cargo target directory must never mistake a copied (old-dated) source for one it already built"""
+    subprocess.call(['find', dst, '-name', '*.rs', '-exec', 'touch', '{}', '+'])
 
 
 def run_checks(dst, tmp, props=PROPS):
@@ -58,6 +65,7 @@ def confirm(src, features=None, demo_env=None):
         if rc != 0:
             return False, log + ['patch does not apply: ' + out[-300:]], None
         os.rename(os.path.join(dst, 'tests', 'demo.rs'), os.path.join(tmp, 'demo.rs'))
+        touch(dst)
         rc, out = sh(['cargo', 'test', '--offline', '--no-fail-fast'] + feat, dst, env)
         res = re.findall(r'test result: (\w+)\. (\d+) passed; (\d+) failed', out)
         log.append('patched tree: cargo test (existing suite) -> exit %d %s' % (rc, res))
@@ -138,8 +146,38 @@ def rerun(ids, jobs=1):
             shutil.rmtree(tmp, ignore_errors=True)
 
 
+def reconfirm(sid, new_patch=None, note=None):
+    """confirm a stored change again against the current /repo (after a fix: commit moved the base), optionally with
+    its patch rebased; the author's description is kept"""
+    d = os.path.join(VERIF, 'seeded', sid)
+    meta = json.load(open(os.path.join(d, 'meta.json')))
+    src = tempfile.mkdtemp(prefix='reconf-')
+    try:
+        shutil.copy(new_patch or os.path.join(d, 'patch.diff'), os.path.join(src, 'patch.diff'))
+        shutil.copy(os.path.join(d, 'demo.rs'), os.path.join(src, 'demo.rs'))
+        ok, log, caught = confirm(src, meta.get('features'), meta.get('env'))
+        print('\n'.join(log))
+        if not ok:
+            print('NOT CONFIRMED: %s' % sid)
+            return 1
+        if new_patch:
+            shutil.copy(new_patch, os.path.join(d, 'patch.diff'))
+        meta['confirmed_by_me'] = log
+        if note:
+            meta.setdefault('rebased', []).append(note)
+        meta['caught_by'] = caught
+        meta['caught_by_own_property_check'] = meta['property'] in caught
+        json.dump(meta, open(os.path.join(d, 'meta.json'), 'w'), indent=1)
+        print('CONFIRMED %s; caught by: %s' % (sid, {k: v[:1] for k, v in caught.items()} or 'NOTHING'))
+        return 0
+    finally:
+        shutil.rmtree(src, ignore_errors=True)
+
+
 if __name__ == '__main__':
-    if len(sys.argv) >= 4 and sys.argv[1] == 'add':
+    if len(sys.argv) >= 3 and sys.argv[1] == 'reconfirm':
+        sys.exit(reconfirm(sys.argv[2], sys.argv[3] if len(sys.argv) > 3 and sys.argv[3] != '-' else None, sys.argv[4] if len(sys.argv) > 4 else None))
+    elif len(sys.argv) >= 4 and sys.argv[1] == 'add':
         sys.exit(add(sys.argv[2], sys.argv[3]))
     elif len(sys.argv) >= 2 and sys.argv[1] == 'run':
         args = sys.argv[2:]
